@@ -132,6 +132,15 @@ func clip(s string) string {
 
 // Judge applies the oracle of DESIGN.md §5.4 to one execution.
 func Judge(c Case, mc *ModelCache, o Outcome) Verdict {
+	if o.Hang {
+		// The model compiled every statement of this script (and of every prefix the regime needs)
+		// and returned; a tool that compiles only what it is given terminates too.
+		if mc.At(len(c.Input)) == nil {
+			return Verdict{Inconclusive: "library panics inside the model: " + mc.ModelPanic}
+		}
+		return Verdict{Class: "tool-does-not-terminate", Regime: "any",
+			Detail: fmt.Sprintf("run had not returned after %v although every statement of the script compiles in finite time on its own (the tool loops, or hands the library text that is not a statement of the script)", HangTimeout)}
+	}
 	if o.Panic != "" {
 		// Does the library alone panic on this script? Then it is C12 territory, not C16.
 		if mc.At(len(c.Input)) == nil {
